@@ -15,6 +15,9 @@ Explorer actions (a scenario = config + list of actions):
                     iterations before the watcher sees it; no stepping is done by the action itself)
   ('B',)            feed a K8s BOOKMARK event (must be ignored by the watcher)
   ('D', u[, rv])    let the in-flight processor call of u return (rv = patched resourceVersion or None)
+  ('V', u)          ... return a FRESH patched resourceVersion (arms the worker's expected_version when
+                    settings.persistence.consistency_timeout is non-zero)
+  ('E', u[, hops])  feed the echo (an event carrying the oldest not yet echoed patched version of u)
   ('X', u)          let the in-flight processor call of u raise
   ('A',)            advance the virtual clock to the earliest timer deadline (no stepping)
   ('W', eighths)    advance the virtual clock by eighths/8 s (no stepping)
@@ -126,6 +129,7 @@ class Driver:
         self.quiescent_checks: list[dict] = []
         self.bookmarks = 0
         self.seq = 0
+        self.unechoed: dict[int, list[str]] = collections.defaultdict(list)   # patched versions returned, echo not yet fed
         self.cons_obs: dict[int, list[tuple]] = collections.defaultdict(list)   # C07: per uid worker-side observations
         self._installed: list[tuple[Any, str, Any]] = []
 
@@ -454,6 +458,22 @@ class Driver:
                 return False
             self.bookmarks += 1
             self.feed.put_nowait(({'type': 'BOOKMARK', 'object': {'metadata': {'resourceVersion': '1'}}}, 0, None))
+        elif k == 'V':      # the in-flight processor call of u returns a fresh patched resourceVersion
+            u = a[1]
+            calls = [c for c in self.inflight[u] if not c['fut'].done()]
+            if not calls:
+                return False
+            self.rv_counter += 1
+            rvp = str(self.rv_counter)
+            self.unechoed[u].append(rvp)
+            calls[0]['fut'].set_result(('ok', rvp))
+        elif k == 'E':      # the echo of the oldest not yet echoed patch of u arrives through the watch-stream
+            u = a[1]
+            if self.cancelled or not self.unechoed[u]:
+                return False
+            raw, e = self.make_event(u, self.unechoed[u].pop(0))
+            self.fed[u].append(e)
+            self.feed.put_nowait((raw, a[2] if len(a) > 2 else 0, e))
         elif k in ('D', 'X'):
             u = a[1]
             calls = [c for c in self.inflight[u] if not c['fut'].done()]
